@@ -8,6 +8,7 @@ import (
 	"sort"
 	"strings"
 
+	"golang.org/x/tools/go/cfg"
 	"golang.org/x/tools/go/ssa"
 
 	"verif/checker/core"
@@ -1361,4 +1362,264 @@ func c06r10(rc *core.RC) {
 	if n < 2 {
 		rc.Unknown("decoder/RuntimeContext-literals", token.NoPos, "found %d RuntimeContext literals (the pool constructor and the ,string stream path expected)", n)
 	}
+}
+
+// ---- C06.R11 a pointer taken out of an interface header is nil-tested before it becomes a destination ----
+
+// headerPtrBase returns the variable X of an expression X.ptr where X is (a pointer to) a struct with the two words of an
+// interface value (fields typ and ptr), looking through noescape(...) and conversions.
+func headerPtrBase(info *types.Info, e ast.Expr) types.Object {
+	e = core.Unparen(e)
+	if c, ok := e.(*ast.CallExpr); ok && len(c.Args) == 1 {
+		return headerPtrBase(info, c.Args[0])
+	}
+	sel, ok := e.(*ast.SelectorExpr)
+	if !ok || sel.Sel.Name != "ptr" {
+		return nil
+	}
+	f := core.FieldOf(info, sel)
+	if f == nil || f.Type().String() != "unsafe.Pointer" {
+		return nil
+	}
+	tv, has := info.Types[sel.X]
+	if !has {
+		return nil
+	}
+	t := tv.Type
+	if pt, isPtr := t.Underlying().(*types.Pointer); isPtr {
+		t = pt.Elem()
+	}
+	st, isStruct := t.Underlying().(*types.Struct)
+	if !isStruct || st.NumFields() != 2 {
+		return nil
+	}
+	return core.ObjOf(info, sel.X)
+}
+
+// The two words of an interface value the caller supplied (the root destination, the value already stored in an
+// interface{} destination) are read through a header struct. The data word may be nil (a typed nil pointer). Every
+// decoder call that takes such a word as its destination has to be unreachable while the word may still be nil: on
+// every flow-graph path from the function's entry there is a test `X.ptr == nil` (or validateType(X.typ, uintptr(X.ptr))
+// != nil) whose failing side leaves.
+func c06r11(rc *core.RC) {
+	p := rc.P
+	n := 0
+	for _, short := range []string{"json", "decoder"} {
+		for _, fd := range p.Funcs(short) {
+			if fd.Body == nil {
+				continue
+			}
+			info := p.Info(fd)
+			type site struct {
+				call *ast.CallExpr
+				base types.Object
+			}
+			var sites []site
+			ast.Inspect(fd.Body, func(m ast.Node) bool {
+				c, ok := m.(*ast.CallExpr)
+				if !ok || len(c.Args) == 0 {
+					return true
+				}
+				sel, isSel := c.Fun.(*ast.SelectorExpr)
+				if !isSel || (sel.Sel.Name != "Decode" && sel.Sel.Name != "DecodeStream") {
+					return true
+				}
+				if b := headerPtrBase(info, c.Args[len(c.Args)-1]); b != nil {
+					sites = append(sites, site{c, b})
+				}
+				return true
+			})
+			if len(sites) == 0 {
+				continue
+			}
+			cf := core.BuildCFGFor(fd, info)
+			fn := p.FuncName(fd)
+			rc.Touch(fn)
+			for i, s := range sites {
+				n++
+				key := fmt.Sprintf("%s/destination-from-interface-word#%d nil-tested", fn, i+1)
+				// edges that establish X.ptr != nil
+				safe := map[[2]int32]bool{}
+				for _, b := range cf.G.Blocks {
+					if len(b.Succs) != 2 || len(b.Nodes) == 0 {
+						continue
+					}
+					cond, isExpr := b.Nodes[len(b.Nodes)-1].(ast.Expr)
+					if !isExpr {
+						continue
+					}
+					// X.ptr == nil among the disjuncts: the false edge knows the word is not nil
+					var disj func(e ast.Expr) bool
+					disj = func(e ast.Expr) bool {
+						e = core.Unparen(e)
+						if be, ok := e.(*ast.BinaryExpr); ok {
+							if be.Op == token.LOR {
+								return disj(be.X) || disj(be.Y)
+							}
+							if be.Op == token.EQL && core.IsNilIdent(info, be.Y) && headerPtrBase(info, be.X) == s.base {
+								return true
+							}
+						}
+						return false
+					}
+					var conj func(e ast.Expr) bool
+					conj = func(e ast.Expr) bool {
+						e = core.Unparen(e)
+						if be, ok := e.(*ast.BinaryExpr); ok {
+							if be.Op == token.LAND {
+								return conj(be.X) || conj(be.Y)
+							}
+							if be.Op == token.NEQ && core.IsNilIdent(info, be.Y) && headerPtrBase(info, be.X) == s.base {
+								return true
+							}
+						}
+						return false
+					}
+					if disj(cond) {
+						safe[[2]int32{b.Index, b.Succs[1].Index}] = true
+					}
+					if conj(cond) {
+						safe[[2]int32{b.Index, b.Succs[0].Index}] = true
+					}
+					// if err := validateType(X.typ, uintptr(X.ptr)); err != nil { return }
+					if be, ok := core.Unparen(cond).(*ast.BinaryExpr); ok && be.Op == token.NEQ && core.IsNilIdent(info, be.Y) {
+						for _, nd := range b.Nodes {
+							ast.Inspect(nd, func(m ast.Node) bool {
+								c, isCall := m.(*ast.CallExpr)
+								if !isCall || !strings.HasSuffix(core.CalleeName(info, c), "validateType") {
+									return true
+								}
+								for _, a := range c.Args {
+									// the word itself, or a local defined once from it (ptr := uintptr(header.ptr))
+									if id, isIdent := core.Unparen(a).(*ast.Ident); isIdent {
+										if def := singleDef(info, fd.Body, core.ObjOf(info, id)); def != nil {
+											a = def
+										}
+									}
+									if headerPtrBase(info, a) == s.base && validateTypeTestsZero(p) {
+										safe[[2]int32{b.Index, b.Succs[1].Index}] = true
+									}
+								}
+								return true
+							})
+						}
+					}
+				}
+				target, _ := cf.BlockOf(s.call)
+				if target == nil {
+					rc.Unknown(key, s.call.Pos(), "call not found in the flow graph")
+					continue
+				}
+				// is the call reachable from the entry without crossing a safe edge?
+				seen := map[int32]bool{}
+				var stack []*cfg.Block
+				if len(cf.G.Blocks) > 0 {
+					stack = append(stack, cf.G.Blocks[0])
+				}
+				reached := false
+				for len(stack) > 0 {
+					b := stack[len(stack)-1]
+					stack = stack[:len(stack)-1]
+					if seen[b.Index] {
+						continue
+					}
+					seen[b.Index] = true
+					if b == target {
+						reached = true
+						break
+					}
+					for _, su := range b.Succs {
+						if !safe[[2]int32{b.Index, su.Index}] {
+							stack = append(stack, su)
+						}
+					}
+				}
+				if reached {
+					rc.Bad(key, s.call.Pos(), "%s hands the data word of an interface value the caller supplied (%s) to a decoder as destination on a path without a nil test of that word: a typed nil pointer stored in the interface (var v interface{} = (*T)(nil)) makes the decoder write through nil (panic)", fn, core.Src(p.Fset, s.call.Args[len(s.call.Args)-1]))
+				} else {
+					rc.OK(key, s.call.Pos(), "every path to the call passes the failing side of a nil test of %s", core.Src(p.Fset, s.call.Args[len(s.call.Args)-1]))
+				}
+			}
+		}
+	}
+	if n < 6 {
+		rc.Unknown("decoder/destinations-from-interface-words", token.NoPos, "found %d decoder calls with an interface word as destination (confirmed: 2 in interfaceDecoder, 3 Unmarshal entries, Decoder.DecodeWithOption)", n)
+	}
+}
+
+// singleDef returns the expression a local variable is defined from when it has exactly one definition in body.
+func singleDef(info *types.Info, body *ast.BlockStmt, o types.Object) ast.Expr {
+	if o == nil {
+		return nil
+	}
+	var def ast.Expr
+	n := 0
+	ast.Inspect(body, func(m ast.Node) bool {
+		switch x := m.(type) {
+		case *ast.AssignStmt:
+			for i, l := range x.Lhs {
+				if core.ObjOf(info, l) == o {
+					n++
+					if len(x.Lhs) == len(x.Rhs) {
+						def = x.Rhs[i]
+					}
+				}
+			}
+		case *ast.IncDecStmt:
+			if core.ObjOf(info, x.X) == o {
+				n++
+			}
+		case *ast.UnaryExpr:
+			if x.Op == token.AND && core.ObjOf(info, x.X) == o {
+				n++
+			}
+		}
+		return true
+	})
+	if n != 1 {
+		return nil
+	}
+	return def
+}
+
+// validateTypeTestsZero: json.validateType returns an error when its address argument is 0.
+func validateTypeTestsZero(p *core.Program) bool {
+	fd := p.Func("json", "validateType")
+	if fd == nil || fd.Body == nil || fd.Type.Params.NumFields() < 2 {
+		return false
+	}
+	info := p.Info(fd)
+	var addr types.Object
+	for _, f := range fd.Type.Params.List {
+		for _, nm := range f.Names {
+			if o := info.Defs[nm]; o != nil && o.Type().String() == "uintptr" {
+				addr = o
+			}
+		}
+	}
+	ok := false
+	ast.Inspect(fd.Body, func(m ast.Node) bool {
+		ifs, isIf := m.(*ast.IfStmt)
+		if !isIf {
+			return true
+		}
+		tests := false
+		ast.Inspect(ifs.Cond, func(x ast.Node) bool {
+			if be, isBin := x.(*ast.BinaryExpr); isBin && be.Op == token.EQL && core.ObjOf(info, be.X) == addr {
+				if v, isC := core.ConstInt(info, be.Y); isC && v == 0 {
+					tests = true
+				}
+			}
+			return true
+		})
+		if tests {
+			for _, st := range ifs.Body.List {
+				if r, isRet := st.(*ast.ReturnStmt); isRet && core.ReturnIsError(info, r) {
+					ok = true
+				}
+			}
+		}
+		return true
+	})
+	return ok
 }
